@@ -6,15 +6,14 @@
 prop=$1; reps=${2:-30}; runs=${3:-24}
 cd "$(dirname "$0")/.."
 export GOFLAGS=-mod=mod GOPROXY=off GOSUMDB=off GOTOOLCHAIN=local
-bin/check $prop --runs 1 >/dev/null 2>&1   # builds the engine exactly as the check does
-eng=$(grep -l "\"$prop\"" cmd/check/props*.go | head -1)
-bin=$(ls -t .build/*.test | head -1)
-test=Test$prop
+read bin test < <(VERIF_PRINT_BIN=1 bin/check $prop | tail -n 1)   # builds the engine exactly as the check does
+[ -x "$bin" ] || { echo "HARNESS: no engine binary for $prop"; exit 2; }
+cp $bin .build/determinism.$prop.test; bin=$PWD/.build/determinism.$prop.test   # private copy: other checks may rebuild meanwhile
 d=.build/determinism/$prop; rm -rf $d; mkdir -p $d
 for i in $(seq 1 $reps); do
   case $((i % 3)) in 0) gmp=1;; 1) gmp=4;; 2) gmp=16;; esac
   ( cd $d && GOMAXPROCS=$gmp VERIF_MODE=search VERIF_WORKER_SEED=424242 VERIF_CHECKS=$runs VERIF_OUT=$PWD/r$i.json VERIF_KNOWN=/verif/known_findings.json \
-      GORACE="halt_on_error=0 exitcode=0 log_path=$PWD/race$i" ../../../$bin -test.run "^$test\$" -test.timeout 0 >/dev/null 2>&1 )
+      GORACE="halt_on_error=0 exitcode=0 log_path=$PWD/race$i" $bin -test.run "^$test\$" -test.timeout 0 >/dev/null 2>&1 )
   jq -S '{evaluations,nontrivial,fingerprints,counters,known,violations:[.violations[]?.sig]}' $d/r$i.json > $d/n$i.json 2>/dev/null
 done
 ref=$d/n1.json; bad=0
@@ -22,4 +21,5 @@ for i in $(seq 2 $reps); do
   if ! cmp -s $ref $d/n$i.json; then bad=$((bad+1)); [ $bad -eq 1 ] && { echo "DIFF between repetition 1 and $i:"; diff <(jq -c . $ref | fold -w 200) <(jq -c . $d/n$i.json | fold -w 200) | head -6; }; fi
 done
 n=$(jq '.evaluations' $ref)
+rm -f $bin
 if [ $bad -eq 0 ]; then echo "DETERMINISTIC $prop: $reps processes x $n runs identical (GOMAXPROCS 1/4/16)"; else echo "NONDETERMINISTIC $prop: $bad of $((reps-1)) repetitions differ"; fi
